@@ -320,6 +320,9 @@ func RunC18(env *Env, rep *Report) {
 			cases = append(cases, robust(c01Case(e, ShString(e))))
 		}
 	}
+	for i := range c18LintPrograms {
+		cases = append(cases, c18LintAcceptCase(i))
+	}
 	// every one-token corruption of the well-formed programs
 	corrupt := c18CorruptCases(env.Tier)
 	cases = append(cases, corrupt...)
@@ -328,7 +331,7 @@ func RunC18(env *Env, rep *Report) {
 		cases = append(cases, c18ParserCase(p, []string{"F"}, true, false))
 	}
 	rep.Technique = "symbolic execution of the real lexer on symbolic characters and of the real parser/emitter on token streams with symbolic token types (go/ssa); no-panic / termination by exhaustive path exploration with an instruction budget, error line ranges as validity queries (z3)"
-	rep.Explanation = "Bounded symbolic verification, not a proof. Lexer: inputs made of up to the stated number of symbolic source characters (every ASCII byte incl. NUL; representative 2-, 3- and 4-byte letters, digits, spaces, symbols and U+FFFD) placed in each of the listed concrete contexts are lexed to EOF by symbolic execution of the real lexer; every feasible path must end without a panic and within the instruction budget. Parser/emitter: token streams consisting of a concrete prefix that reaches each parsing loop, followed by up to the stated number of free tokens - identifier, number, string, typed string, raw string, or a token whose TYPE is symbolic over all 48 fixed-spelling token types (keywords, operators, delimiters, illegal character) - and EOF are compiled by symbolic execution of the real parser and emitter (the type comparisons of the parser split the symbolic type lazily, so every distinguishable continuation is explored), in normal mode with optimize/line markers on and off, and in lint mode. The same is done for every one-token corruption of the listed well-formed programs (which together use every construct): at every token position a free token - of symbolic fixed-spelling type, or an identifier; in the thorough tier also a number or a string - is inserted or put in place of the token, or the token is deleted. Asserted on every path: no panic (nil dereference, index out of range, failed assertion, explicit panic), termination within the budget, a returned error is located with 1 <= start <= end <= number of input lines, lint accepts what normal accepts. Paths ending in a panic or running out of budget are replayed on the native build (with a timeout) before they are reported."
+	rep.Explanation = "Bounded symbolic verification, not a proof. Lexer: inputs made of up to the stated number of symbolic source characters (every ASCII byte incl. NUL; representative 2-, 3- and 4-byte letters, digits, spaces, symbols and U+FFFD) placed in each of the listed concrete contexts are lexed to EOF by symbolic execution of the real lexer; every feasible path must end without a panic and within the instruction budget. Parser/emitter: token streams consisting of a concrete prefix that reaches each parsing loop, followed by up to the stated number of free tokens - identifier, number, string, typed string, raw string, or a token whose TYPE is symbolic over all 48 fixed-spelling token types (keywords, operators, delimiters, illegal character) - and EOF are compiled by symbolic execution of the real parser and emitter (the type comparisons of the parser split the symbolic type lazily, so every distinguishable continuation is explored), in normal mode with optimize/line markers on and off, and in lint mode. The same is done for every one-token corruption of the listed well-formed programs (which together use every construct): at every token position a free token - of symbolic fixed-spelling type, or an identifier; in the thorough tier also a number or a string - is inserted or put in place of the token, or the token is deleted. Well-formed programs whose compilation needs a font table or -s switches (format() with an explicit font id in every parameter form, poryswitch in every position) must be accepted by the lint parser, which has neither. Asserted on every path: no panic (nil dereference, index out of range, failed assertion, explicit panic), termination within the budget, a returned error is located with 1 <= start <= end <= number of input lines, lint accepts what normal accepts. Paths ending in a panic or running out of budget are replayed on the native build (with a timeout) before they are reported."
 	rep.Bounds = map[string]interface{}{"lexer_contexts": c18LexContexts, "max_symbolic_characters": maxCells, "lexer_cases": len(lexJobs), "parser_prefixes": len(c18Prefixes), "max_free_tokens": maxFree, "parser_cases": len(cases), "corrupted_program_cases": len(corrupt), "wellformed_programs": c18Wellformed, "instruction_budget": map[string]int{"lexer": 400000, "compile": 2000000}}
 	rep.Outside = []string{"longer symbolic stretches", "non-ASCII characters outside the representative set", "memory growth other than through the instruction budget", "font / command config files (main.go I/O)"}
 	rep.Assumptions = []string{"Unicode classification of the representative non-ASCII characters from the host's tables", "free tokens are rendered one per line (their line numbers are those of the rendered text)"}
@@ -387,6 +390,41 @@ func RunC18(env *Env, rep *Report) {
 		acc += int(atomic.LoadInt32(&c18Accepted[i]))
 	}
 	rep.Bounds["wellformed_programs_accepted_uncorrupted"] = fmt.Sprintf("%d of %d", acc, len(c18Wellformed))
+}
+
+// ---- lint mode never fails because switches or fonts are missing
+
+// c18LintPrograms are well-formed programs whose compilation needs a font
+// table or -s switches; the lint parser has neither and must accept them.
+var c18LintPrograms = []string{
+	"text T {\n  format(\"a b c\", \"1_latin_frlg\")\n}",
+	"text T {\n  format(\"a b c\", 100, \"1_latin_frlg\")\n}",
+	"text T {\n  format(\"a b c\", fontId=\"some_font\", numLines=3)\n}",
+	"script S {\n  cmd(format(\"a b c\", \"1_latin_frlg\", 80))\n  cmd2(format(\"x\", maxLineLength=50, fontId=\"f\"))\n}",
+	"text T {\n  poryswitch(LANG) {\n    DE: format(\"a b\", \"font_de\")\n    _: format(\"c d\", \"font_x\", 90)\n  }\n}",
+	"script S {\n  poryswitch(GAME) {\n    RUBY { cmd(moves(poryswitch(LANG) { DE: walk_up }))\n }\n  }\n  if (av(format(\"q\", \"f2\")) == 1) {\n    c\n  }\n}",
+	"movement M {\n  poryswitch(GAME) {\n    RUBY: walk_up\n  }\n}\nmart Z {\n  poryswitch(GAME) {\n    RUBY { ITEM_A }\n  }\n}",
+}
+
+func c18LintAcceptCase(i int) *Case {
+	atoms := &AtomTable{Coded: true}
+	prog := &Program{Atoms: atoms, Tops: []interface{}{&TopRaw{Text: c18LintPrograms[i]}}}
+	opt := CompileOpts{Optimize: true, Lint: true, AVs: []AVSpec{{Name: L("av"), VarName: L("VAR_RESULT"), Pos: -1}}}
+	cs := &Case{Name: fmt.Sprintf("c18/lint-accepts/%d", i), Prog: prog, Variants: []Variant{{Name: "lint", Opt: opt}, {Name: "lint-noopt", Opt: CompileOpts{Lint: true, AVs: opt.AVs}}}, NonTrivial: true,
+		Shape: c18Shape{Sub: "lint-accepts", Context: c18LintPrograms[i], Lint: true}, MaxPaths: 64}
+	cs.Oracle = func(x *OracleCtx) *Violation {
+		for _, v := range x.Case.Variants {
+			res := x.Res[v.Name]
+			if res.Err.Panic != "" {
+				return &Violation{Sub: "crash", Msg: "variant " + v.Name + ": " + res.Err.Panic}
+			}
+			if res.Err.IsErr {
+				return &Violation{Sub: "lint", Msg: "lint mode rejects a well-formed program that only lacks fonts / switches: " + interp.ToString(res.Err.Msg)}
+			}
+		}
+		return nil
+	}
+	return cs
 }
 
 // ---- one-token corruptions of well-formed programs
